@@ -41,6 +41,46 @@ func init() {
 	}
 }
 
+// zz3H is sha2-256 as the harness and the stub see it. Without pinned inputs it is the engine's uninterpreted
+// function. A harness that needs a CONCRETE requested digest (so that datastore keys are concrete) pins the
+// concrete original bytes first: H(x) = D_k if x == pinned_k, else UF(x) with a tag byte that keeps UF values
+// apart from every D_k -- still a collision-free function, with known values at the pinned points.
+var zz3Pins [][2][]byte
+
+func zz3Pin(orig []byte) []byte {
+	if !verifrt.Symbolic() {
+		s := sha256.Sum256(orig)
+		return s[:]
+	}
+	d := make([]byte, 32)
+	d[0], d[1] = 0x01, byte(len(zz3Pins))
+	for i := 2; i < 32; i++ {
+		d[i] = byte(7 * i)
+	}
+	zz3Pins = append(zz3Pins, [2][]byte{append([]byte{}, orig...), d})
+	return d
+}
+
+func zz3H(data []byte) []byte {
+	d := verifrt.HashUF(zz3Algo, data, 32)
+	if !verifrt.Symbolic() || len(zz3Pins) == 0 {
+		return d
+	}
+	verifrt.Assume(d[0] == 0xFE)
+	for _, p := range zz3Pins {
+		if len(p[0]) != len(data) {
+			continue
+		}
+		eq := bytes.Equal(data, p[0])
+		out := make([]byte, 32)
+		for i := range out {
+			out[i] = byte(verifrt.Ite(eq, uint64(p[1][i]), uint64(d[i])))
+		}
+		d = out
+	}
+	return d
+}
+
 // zz3MhSum mirrors multihash.Sum/encodeHash: look the hasher up, hash, apply the length rules, encode.
 func zz3MhSum(data []byte, code uint64, length int) (mh.Multihash, error) {
 	var sum []byte
@@ -48,7 +88,7 @@ func zz3MhSum(data []byte, code uint64, length int) (mh.Multihash, error) {
 	case mh.IDENTITY:
 		sum = append([]byte{}, data...)
 	case mh.SHA2_256:
-		sum = verifrt.HashUF(zz3Algo, data, 32)
+		sum = zz3H(data)
 	default:
 		return nil, mh.ErrSumNotSupported
 	}
@@ -86,10 +126,10 @@ func zz3NewRequest(maxKind, maxOrig int) *zz3Request {
 	r.orig = verifrt.NondetBytes("orig", verifrt.NondetRange("origlen", 0, maxOrig))
 	switch r.kind {
 	case 0:
-		r.digest = verifrt.HashUF(zz3Algo, r.orig, 32)
+		r.digest = zz3H(r.orig)
 		r.m = zz3Encode(r.digest, mh.SHA2_256)
 	case 1:
-		r.digest = verifrt.HashUF(zz3Algo, r.orig, 32)[:20]
+		r.digest = zz3H(r.orig)[:20]
 		r.m = zz3Encode(r.digest, mh.SHA2_256)
 	case 2:
 		r.digest = r.orig
@@ -101,13 +141,36 @@ func zz3NewRequest(maxKind, maxOrig int) *zz3Request {
 	return r
 }
 
+// zz3NewPinnedRequest: the original bytes are one fixed text per length (the hash treats all inputs alike), so
+// the requested multihash -- and with it every datastore key -- is concrete; everything read back stays symbolic.
+func zz3NewPinnedRequest(maxKind, maxOrig int) *zz3Request {
+	r := &zz3Request{kind: verifrt.NondetRange("kind", 0, maxKind)}
+	r.orig = make([]byte, verifrt.NondetRange("origlen", 0, maxOrig))
+	for i := range r.orig {
+		r.orig[i] = 0x61 + byte(i)
+	}
+	switch r.kind {
+	case 0:
+		r.digest = zz3Pin(r.orig)
+		r.m = zz3Encode(r.digest, mh.SHA2_256)
+	case 1:
+		r.digest = zz3Pin(r.orig)[:20]
+		r.m = zz3Encode(r.digest, mh.SHA2_256)
+	default:
+		r.kind = 2
+		r.digest = r.orig
+		r.m = zz3Encode(r.digest, mh.IDENTITY)
+	}
+	return r
+}
+
 // hashesTo is the reference predicate "these bytes hash to the requested multihash".
 func (r *zz3Request) hashesTo(b []byte) bool {
 	switch r.kind {
 	case 0:
-		return bytes.Equal(verifrt.HashUF(zz3Algo, b, 32), r.digest)
+		return bytes.Equal(zz3H(b), r.digest)
 	case 1:
-		return bytes.Equal(verifrt.HashUF(zz3Algo, b, 32)[:20], r.digest)
+		return bytes.Equal(zz3H(b)[:20], r.digest)
 	case 2:
 		return bytes.Equal(b, r.orig)
 	}
@@ -269,6 +332,7 @@ func (w *zz3World) open(path string) (FileReader, error) {
 }
 
 func zz3Setup() {
+	zz3Pins = nil
 	if verifrt.Symbolic() {
 		// packages os, io/fs and internal/oserror are never initialised under the engine (their error
 		// variables are nil there); os.IsNotExist compares against os.ErrNotExist
@@ -414,7 +478,7 @@ func zz3Record(d *pb.DataObj) []byte {
 func HarnessC03FilestoreGet() {
 	zz3Setup()
 	ctx := context.Background()
-	r := zz3NewRequest(2, verifrt.Param("OLEN", 2))
+	r := zz3NewPinnedRequest(2, verifrt.Param("OLEN", 2))
 	c := r.cid("form")
 	w := zz3NewWorld(1, verifrt.Param("FLEN", 3))
 	mds := ds.NewMapDatastore()
